@@ -33,7 +33,7 @@ package cfevesting
 //@   ensures [pools] forall i: int :: {genState.AccountVestingPools[i]} 0 <= i && i < len(genState.AccountVestingPools) ==> poolsStored(genState.AccountVestingPools[i])
 //@   // every lineage record of the genesis is stored
 //@   ensures [traces] forall i: int :: {genState.VestingAccountTraces[i].Address} 0 <= i && i < len(genState.VestingAccountTraces) ==> $trFound[genState.VestingAccountTraces[i].Address]
-//@   prop C12
+//@   prop C12 C05
 //@ pred poolsStored(av) = $pFound[av.Owner] && $pLen[av.Owner] == len(av.VestingPools)
 //@   && (forall m: int :: {av.VestingPools[m]} 0 <= m && m < len(av.VestingPools) ==> poolFieldsEq(av.VestingPools[m], av.Owner, m))
 //@ pred poolFieldsEq(p, o, i) = p.Name == $pName[o][i] && p.VestingType == $pType[o][i] && p.LockStart == $pLockStart[o][i]
